@@ -10,6 +10,7 @@ use trv_core::inner::{GatedInner, Mode, Req};
 use trv_core::svcx::{self, Action, Counts, Opts, Scenario, Viol};
 use trv_core::world::{drive_ready, Outcome, Phase, World};
 
+mod bursts;
 mod threads;
 
 trv_core::install_clock_seam!();
@@ -44,7 +45,7 @@ struct X {
     pre: Option<(usize, usize)>,
 }
 
-fn wname(w: WindowType) -> &'static str {
+pub fn wname(w: WindowType) -> &'static str {
     match w {
         WindowType::Fixed => "fixed",
         WindowType::SlidingLog => "sliding_log",
@@ -52,7 +53,7 @@ fn wname(w: WindowType) -> &'static str {
     }
 }
 
-fn admissions(w: &World) -> Vec<u64> {
+pub fn admissions(w: &World) -> Vec<u64> {
     let g = w.inner.lock().unwrap();
     let mut v: Vec<u64> = g.calls.iter().map(|c| c.start_ms).collect();
     v.sort();
@@ -69,7 +70,7 @@ fn has_inner(w: &World, c: usize) -> bool {
 /// Exists a cut of time into consecutive windows, each >= period long (the first one
 /// unbounded to the left), each holding <= limit admissions?  Windows are closed on the
 /// left.  Exact search (memoised) over which admission starts each window.
-fn cut_exists(a: &[u64], limit: usize, period: u64) -> bool {
+pub fn cut_exists(a: &[u64], limit: usize, period: u64) -> bool {
     // state: (index of first admission of the current window, earliest start of the *next* cut)
     fn go(a: &[u64], i: usize, min_next_cut: i64, limit: usize, period: u64, memo: &mut HashMap<(usize, i64), bool>) -> bool {
         let n = a.len();
@@ -478,6 +479,10 @@ fn main() {
             svcx::validate_abstraction(&cfg, 7, &ex.fingerprints, ex.depth_completed, &mut rep);
         }
     }
+    // burst grid: long timeout-0 runs, large limits, extreme configurations
+    bursts::run(prop, tier, &mut rep);
+    rep.require_witness("burst_run_spanning_several_windows");
+    rep.require_witness("burst_call_rejected");
     // thread level: all interleavings of the critical sections of concurrent acquisitions
     threads::run(prop, tier, &mut rep);
     rep.require_witness("thread_schedules_with_preemption");
